@@ -68,7 +68,7 @@ func omniChildMain() int {
 // FeedCase is one feed cycle.
 type FeedCase struct {
 	Real    bool   `json:"real"`     // real witness (through witnessAdapter) instead of the recording stub
-	W       []int  `json:"w"`        // size the witness reports in attempt k (-1: nothing yet); last value repeats
+	W       []int  `json:"w"`        // size the witness reports in attempt k (-1: nothing yet; -2: one byte of junk; -3: a checkpoint signed by another key); last value repeats
 	N       int    `json:"n"`        // size the log publishes
 	Fork    bool   `json:"fork"`     // the log publishes a forked branch
 	ForkAt  int    `json:"fork_at"`  // fork point
@@ -154,6 +154,21 @@ func rootOf(br *vlib.Branch, size uint64) [32]byte {
 	return sha256.Sum256([]byte(fmt.Sprintf("made-up root of size %d", size)))
 }
 
+// wAt is the W entry that governs attempt a.
+func (c *FeedCase) wAt(a int) int {
+	if a < len(c.W) {
+		return c.W[a]
+	}
+	return c.W[len(c.W)-1]
+}
+
+func trunc40(b []byte) string {
+	if len(b) > 40 {
+		return string(b[:40]) + "..."
+	}
+	return string(b)
+}
+
 func (c *FeedCase) nsize() uint64 {
 	if c.NBig > 0 {
 		return c.NBig
@@ -187,6 +202,12 @@ func (s *stubWitness) latestFor(attempt int) []byte {
 	w := s.c.W[len(s.c.W)-1]
 	if attempt < len(s.c.W) {
 		w = s.c.W[attempt]
+	}
+	switch w {
+	case -2: // an answer that is no checkpoint at all
+		return []byte("x")
+	case -3: // a checkpoint of this origin signed by somebody else
+		return cpBytes(vlib.NewKey("logkey", "stranger"), s.main, 3)
 	}
 	if w < 0 {
 		return nil
@@ -364,6 +385,7 @@ func runFeedStub(c *FeedCase) (bool, []string, error) {
 	subSize := c.nsize()
 	subRoot := rootOf(logBr, subSize)
 	var okUpdate *call
+	sawUnverifiable := false
 	for a := 0; a <= maxAttempt; a++ {
 		cs := byAttempt[a]
 		if len(cs) == 0 || cs[0].Kind != "G" {
@@ -373,6 +395,16 @@ func runFeedStub(c *FeedCase) (bool, []string, error) {
 		if g.Failed {
 			if len(cs) != 1 {
 				return nontrivial, classes, fmt.Errorf("attempt %d: get-latest failed but the feeder went on: %s", a, callStr(cs))
+			}
+			continue
+		}
+		if wv := c.wAt(a); wv == -2 || wv == -3 {
+			// what the witness answered is not a checkpoint of this log under this key: there
+			// is nothing to anchor an old size or a proof to, so nothing may be asked or sent
+			// in this attempt (whether the cycle then retries or gives up is the feeder's choice)
+			sawUnverifiable = true
+			if len(cs) != 1 {
+				return true, classes, fmt.Errorf("attempt %d: the witness's answer (%q) does not verify as a checkpoint of this log, but the feeder went on: %s", a, trunc40(g.Ret), callStr(cs[1:]))
 			}
 			continue
 		}
@@ -446,6 +478,9 @@ func runFeedStub(c *FeedCase) (bool, []string, error) {
 		}
 	}
 
+	if sawUnverifiable {
+		return true, append(classes, "witness-answer-unverifiable"), nil
+	}
 	ahead := false
 	if g := byAttempt[maxAttempt]; len(g) > 0 && g[0].Ret != nil {
 		h := (*vlib.Env)(nil).ScanCheckpoint(g[0].Ret)
@@ -723,6 +758,19 @@ func TestC13Sizes(t *testing.T) {
 					vlib.SaveFailure("C13", "sizes", c, err)
 					t.Fatalf("C13 violated: %v (case %+v)", err, *c)
 				}
+			}
+		}
+	}
+	// a witness whose answer is not a verifiable checkpoint of this log (one byte of junk; a
+	// checkpoint signed by somebody else), then an honest answer
+	for _, junk := range []int{-2, -3} {
+		for _, w := range []int{-1, 0, 3, 9} {
+			c := &FeedCase{W: []int{junk, w}, N: 9}
+			nt, cl, err := runFeedCase(c)
+			st.Record(feedHash(c), nt, cl, vlib.SampleOf(c))
+			if err != nil {
+				vlib.SaveFailure("C13", "sizes", c, err)
+				t.Fatalf("C13 violated: %v (case %+v)", err, *c)
 			}
 		}
 	}
